@@ -344,7 +344,8 @@ pub fn run_long_pow<F: PF>(ctx: &mut Ctx) {
 /// `sqrt`, `sqrt_ratio`, `conditional_select`, `random` and `From<k256::FieldElement>` WITHOUT
 /// normalising them; every predicate / comparison / encoder / arithmetic method must therefore
 /// behave on weakly normalised (magnitude 1, not normalised) values, and — through the public
-/// `From<k256::FieldElement>` — on lazily accumulated values as well.
+/// `From<k256::FieldElement>` (which normalises since /repo 0cce575; regression case of the fixed
+/// finding `k256.Fp:from-unnormalized`) — on lazily accumulated values as well.
 pub fn run_k256_norm(ctx: &mut Ctx) {
     let n = "K256Fp";
     let p = modulus::<K256Fp>();
@@ -427,11 +428,9 @@ pub fn run_k256_norm(ctx: &mut Ctx) {
             match got {
                 Ok(ans) => ctx.case(&format!("k256n.{op}"), true, &line, &ans),
                 Err(e) => {
-                    if kind != "from" {
-                        ctx.case(&format!("k256n.{op}"), true, &line, "panic");
-                    }
-                    // lazily accumulated inputs of magnitude > 1 are outside what the wrapper's
-                    // own methods can produce: reported under one stable key
+                    ctx.case(&format!("k256n.{op}"), true, &line, "panic");
+                    // lazily accumulated inputs of magnitude > 1 injected through From: regression
+                    // of the fixed finding k256.Fp:from-unnormalized (/repo 0cce575), one stable key
                     if kind == "from" {
                         fail(ctx, "k256.Fp:from-unnormalized".into(),
                             "k256::Fp::from(k256::FieldElement) stores a lazily reduced element (magnitude > 1) without normalising it; neg / sub of the wrapper then violate k256's magnitude contract (panic in debug builds, limb underflow = wrong value in release builds for magnitude >= 5)",
